@@ -772,6 +772,99 @@ def corr_opa(seed, tier):
     return R
 
 
+# ----------------------------------------------------------------------------------------------------- POP
+def corr_pop(seed, tier):
+    """POP.fit (no PCA pre-reduction) against XM.popFeedback / popCoeff / popFit at complex doubles: numpy's inverse of X0ᴴX0, the
+    eigen-pairs of the feedback matrix, the 2×2 pseudo-inverses and `angle` are recorded from inside xeofs (oracles); the model must
+    reproduce THE MATRIX HANDED TO `eig` (feedback matrix), the 2×2 systems handed to `pinv`, POP coefficients, their standard
+    deviations, the descending order, eigenvalues, damping times and periods (incl. infinite periods of real modes)."""
+    R = Result("pop")
+    rng = np.random.default_rng(17000 + seed)
+    reqs, exps = [], []
+    for i in range({"quick": 6, "thorough": 40, "search": 20}[tier]):
+        n, p = int(rng.integers(30, 70)), int(rng.integers(2, 6))
+        B = rng.normal(size=(p, p))
+        B = B * (float(rng.uniform(0.5, 0.95)) / max(np.abs(np.linalg.eigvals(B)).max(), 1e-12))  # stable dynamics: a stationary series
+        A = np.zeros((n, p))
+        A[0] = rng.normal(size=p)
+        for t in range(1, n):
+            A[t] = A[t - 1] @ B + rng.normal(size=p) * 0.5
+        center = bool(i % 2)
+        rec = {"inv": [], "eig": [], "pinv": []}
+        o_inv, o_eig, o_pinv = np.linalg.inv, np.linalg.eig, np.linalg.pinv
+
+        def inv_spy(M, *a, **kw):
+            out = o_inv(M, *a, **kw)
+            rec["inv"].append((np.array(M), np.array(out)))
+            return out
+
+        def eig_spy(M, *a, **kw):
+            out = o_eig(M, *a, **kw)
+            rec["eig"].append((np.array(M), np.array(out[0]), np.array(out[1])))
+            return out
+
+        def pinv_spy(M, *a, **kw):
+            out = o_pinv(M, *a, **kw)
+            rec["pinv"].append((np.array(M), np.array(out)))
+            return out
+
+        np.linalg.inv, np.linalg.eig, np.linalg.pinv = inv_spy, eig_spy, pinv_spy
+        try:
+            with warnings.catch_warnings():
+                warnings.simplefilter("ignore")
+                m = xe.single.POP(n_modes=p, use_pca=False, center=center).fit(da2d(A, "time", "x"), "time")
+        finally:
+            np.linalg.inv, np.linalg.eig, np.linalg.pinv = o_inv, o_eig, o_pinv
+        sn, fn = m.sample_name, m.feature_name
+        X = np.asarray(m.data["input_data"].transpose(sn, fn).values, dtype=float)
+        A_in, lam, P = rec["eig"][-1]
+        k = lam.size
+        Cinv = rec["inv"][-1][1]
+        pin = rec["pinv"][:k]
+        R.tally("center", center)
+        R.tally("real_modes", int(np.sum(np.abs(lam.imag) < 1e-14)))
+        exp = {"A": A_in, "gram0": rec["inv"][-1][0], "systems": [pm[0] for pm in pin],
+               "comps": m.data["components"].transpose(fn, "mode").values, "scores": m.data["scores"].transpose(sn, "mode").values,
+               "eigenvalues": m.eigenvalues().values, "norms": m.data["norms"].values, "damping": m.damping_times().values,
+               "periods": m.periods().values, "perm": [int(v) for v in m.data["idx_modes_sorted"].values]}
+        req = {"fn": "pop", "cplx": True, "n": n, "p": p, "k": int(k), "X": cbits(X), "Cinv": cbits(Cinv), "P": cbits(P), "lam": cbits(lam),
+               "arg": bits(np.angle(lam)), "Minv": bits(np.concatenate([pm[1].ravel() for pm in pin])), "two_pi": f2b(2 * np.pi)}
+        reqs.append(req)
+        exps.append((exp, (n, p, int(k)), {"n": n, "p": p, "k": int(k), "center": center, "seed": seed}))
+    for (exp, (n, p, k), small), ans in zip(exps, ask(reqs)):
+        if ans.get("status") != "ok":
+            R.cmp("status", False, small, ans, "ok")
+            continue
+        R.cmp("feedback_matrix", cclose(uncbits(ans["A"], (p, p)), exp["A"], 1e-8), small, [str(z) for z in uncbits(ans["A"]).ravel()[:3]], [str(z) for z in exp["A"].ravel()[:3]])
+        R.cmp("gram0", cclose(uncbits(ans["gram0"], (p, p)), exp["gram0"], 1e-9), small, None, None)
+        sys_ok = all(close(np.array([b2f(x) for x in srow]), np.array([M[0, 0], M[0, 1], M[1, 1]]), 1e-9) for srow, M in zip(ans["systems"], exp["systems"]))
+        R.cmp("coefficient_systems", sys_ok, small, ans["systems"][:1], [M.tolist() for M in exp["systems"][:1]])
+        # norms of conjugate partners are equal up to rounding: compare the order through the sorted norms and the values at the labels
+        perm_ok = ans["perm"] == exp["perm"] or close(unbits(ans["norms"]), exp["norms"], 1e-9)
+        R.cmp("order", perm_ok, small, ans["perm"], exp["perm"])
+        R.cmp("norms", close(unbits(ans["norms"]), exp["norms"], 1e-8), small, unbits(ans["norms"]).tolist(), exp["norms"].tolist())
+        # conjugate partners have equal norms; their relative order is a rounding matter. Canonicalise: match the model's modes to
+        # the implementation's by eigenvalue, then compare everything at the matched labels
+        lam_m, lam_e = uncbits(ans["eigenvalues"], (k,)), np.asarray(exp["eigenvalues"])
+        match, used = [], set()
+        for je in range(k):
+            cand = [jm for jm in range(k) if jm not in used]
+            jm = min(cand, key=lambda c: abs(lam_m[c] - lam_e[je]))
+            used.add(jm)
+            match.append(jm)
+        R.tally("order", "identical" if ans["perm"] == exp["perm"] else "conjugate partners swapped")
+        R.cmp("eigenvalues", cclose(lam_m[match], lam_e, 1e-10), small, [str(z) for z in lam_m[match]], [str(z) for z in lam_e])
+        R.cmp("components", cclose(uncbits(ans["comps"], (p, k))[:, match], exp["comps"], 1e-8), small, None, None)
+        R.cmp("scores", cclose(uncbits(ans["scores"], (n, k))[:, match], exp["scores"], 1e-7), small, [str(z) for z in uncbits(ans["scores"], (n, k))[:, match].ravel()[:3]],
+              [str(z) for z in np.asarray(exp["scores"]).ravel()[:3]])
+        R.cmp("damping_times", close(unbits(ans["damping"])[match], exp["damping"], 1e-9), small, unbits(ans["damping"])[match].tolist(), exp["damping"].tolist())
+        pm, pe = unbits(ans["periods"])[match], np.asarray(exp["periods"], dtype=float)
+        fin = np.isfinite(pe)
+        R.cmp("periods", bool(np.array_equal(np.isfinite(pm), fin) and close(pm[fin], pe[fin], 1e-9) and np.array_equal(np.sign(pm[~fin]), np.sign(pe[~fin]))),
+              small, pm.tolist(), pe.tolist())
+    return R
+
+
 # ----------------------------------------------------------------------------------------------------- Scaler
 def corr_scaler(seed, tier):
     """preprocessing.Scaler.fit/transform/inverse_transform_data on (sample, feature) arrays against XM.scalerTransform /
@@ -1480,6 +1573,7 @@ CORR = {
     "complex": corr_complex,
     "bootstrap": corr_bootstrap,
     "opa": corr_opa,
+    "pop": corr_pop,
     "scaler": corr_scaler,
     "threshold": corr_threshold,
     "validators": corr_validators,
@@ -1511,7 +1605,7 @@ BY_PROP = {
     "C15": ["threshold", "validators", "sign_rule"],
     "C16": ["complex", "whitener", "formulas", "validators"],
     "C17": ["validators", "sanitizer"],
-    "C18": ["formulas"],
+    "C18": ["pop", "formulas"],
     "C19": ["opa", "formulas"],
     "C20": ["bootstrap", "eof_pipeline"],
 }
